@@ -220,9 +220,9 @@ def replay(case, ctx):
 
 def plan(tier, seed):
     shards = [{"kind": "exhaustive", "part": p, "nparts": 6} for p in range(6)]
-    nrand, per = (6, 400) if tier == "quick" else (16, 20000)
+    nrand, per = (6, 2500) if tier == "quick" else (16, 20000)
     shards += [{"kind": "random", "n": per, "queries": 30} for _ in range(nrand)]
-    nin, per = (4, 300) if tier == "quick" else (16, 12000)
+    nin, per = (4, 2000) if tier == "quick" else (16, 12000)
     shards += [{"kind": "insitu", "n": per} for _ in range(nin)]
     return shards
 
